@@ -150,6 +150,12 @@ func (tk *task) run(chGlobals map[string]lua.LValue, shared map[string]*lua.Func
 			tk.trace = append(tk.trace, h.Trace...)
 			tk.trace = append(tk.trace, fmt.Sprintf("--- state %d closed", i))
 			h.L.Close()
+			// a host that closes a state twice (an error path plus a deferred Close) gets a panic from the second
+			// call or nothing at all; whichever it is, it is that host's business and no other state's
+			func() {
+				defer func() { recover() }()
+				h.L.Close()
+			}()
 			// a sandbox: only the base and string libraries are opened (no package library), run, close
 			tk.budget = tk.mb.park(pendingOp{kind: parkStep})
 			S := lua.NewState(lua.Options{SkipOpenLibs: true})
